@@ -15,6 +15,9 @@ func nC14() int {
 func mapC14() map[string]interface{} {
 	m := map[string]interface{}{}
 	keys := []string{"a", "b", "c", "d"}
+	if vBool() {
+		keys = []string{"7", "07", "0", "00"}
+	}
 	n := 2 + vChoose(nC14()-1)
 	for _, k := range keys[:n] {
 		m[k] = elemC06()
@@ -26,7 +29,7 @@ func H_C14_quantifier() {
 	m := mapC14()
 	d := map[string]interface{}{"m": m}
 	var expr string
-	switch vChoose(5) {
+	switch vChoose(6) {
 	case 0:
 		expr = "any m as k, v { v == 1 }"
 	case 1:
@@ -35,6 +38,9 @@ func H_C14_quantifier() {
 		expr = "any m as k { k == \"b\" }"
 	case 3:
 		expr = "all m as k, v { k != \"a\" or v == 1 }"
+	case 5:
+		expr = "any mm as g, members { any members as name, val { val == 1 } }"
+		d = map[string]interface{}{"mm": map[string]interface{}{"g1": m, "g2": map[string]interface{}{"z": elemC06()}}}
 	default:
 		expr = "any m as _, v { 1 in v }"
 	}
